@@ -48,6 +48,7 @@ type World struct {
 	mbnBusy          map[*ssa.Function]bool
 	pinned           map[*ssa.Function]ssa.CallInstruction
 	idxSums          map[*ssa.Function]*idxSummary
+	frameBody        map[*ssa.Function]*ssa.Function
 	recBusy          map[ssa.Value]bool
 	upBusy           map[*ssa.Parameter]bool
 	recEsc           map[*ssa.Alloc]bool
